@@ -16,7 +16,9 @@
 (*   outcome   recorded result/cost/error kind # specification             *)
 (*   counters  recorded atom/pair/heap counters # specification (diag.)    *)
 (*   rel:<k>   relation k between two recorded variants violated           *)
-(*   guard:<k> hook events of a softfork guard violate C31 clause k        *)
+(*   guard:<k> hook events of a softfork guard violate C31 clause k;       *)
+(*             guard:verdict = SoftforkCostMismatch reported / not reported *)
+(*             against the machine                                          *)
 (*   cap       a sampled counter exceeds its cap (C13)                     *)
 (*   stacks    stack high-water marks of the counters feature # machine    *)
 (*   internal  the run reported InternalError or panicked (C25)            *)
@@ -156,6 +158,11 @@ End(e) ==
          /\ IF decided /\ spec = obs /\ e.ok
                /\ ~(st.al.atoms = e.atoms /\ st.al.pairs = e.pairs /\ st.al.heap = e.heap)
             THEN Report("counters", e, [expected |-> st.al, atoms |-> e.atoms, pairs |-> e.pairs, heap |-> e.heap])
+            ELSE TRUE
+         \* C31 (cost clause, seen from the outcome): a run ends with SoftforkCostMismatch exactly when the machine's does
+         /\ IF decided /\ ~Has(e, "panic")
+               /\ ((spec.st = "err" /\ spec.kind = "SoftforkCostMismatch") # (obs.st = "err" /\ obs.kind = "SoftforkCostMismatch"))
+            THEN Report("guard:verdict", e, [expected |-> spec, observed |-> obs])
             ELSE TRUE
          /\ IF Has(e, "panic") \/ (~e.ok /\ e.kind = "InternalError")
             THEN Report("internal", e, IF Has(e, "panic") THEN e.panic ELSE e.msg) ELSE TRUE
